@@ -108,6 +108,7 @@ def parseEv : List String → Option Ev
   | ["done", q] => do pure (.act (.done (← q.toNat?)))
   | ["loaddone", r, ok] => do pure (.act (.loadDone (← r.toNat?) (ok != "0")))
   | ["ping", r, "2"] => do pure (.act (.setPingBlock (← r.toNat?)))     -- Ping parks until `pingdone`
+  | ["ping", r, "3"] => do pure (.act (.setPingOpen (← r.toNat?)))      -- … and lets go of refMu while parked
   | ["ping", r, ok] => do pure (.act (.setPing (← r.toNat?) (ok != "0")))
   | ["pingdone", r, ok] => do pure (.act (.pingDone (← r.toNat?) (ok != "0")))
   | ["unload", m] => do pure (.act (.explicitUnload (← m.toNat?)))
